@@ -109,6 +109,9 @@ type Scenario struct {
 	// that scheme, through the ...Scheme entry points (PostInboxScheme, PostOutboxScheme,
 	// NewActivityStreamsHandlerScheme).
 	Scheme string
+	// PreHeaders are already on the ResponseWriter when the library is called (set by middleware or
+	// by the application's authentication hook).
+	PreHeaders map[string][]string
 }
 
 // RunOut is what one request produced.
@@ -150,6 +153,9 @@ func (sc *Scenario) On(a *ap.App, t *mc.T) *RunOut { return sc.OnReq(a, t, a.New
 // OnReq is On with a request monitor created beforehand (fixed request numbering).
 func (sc *Scenario) OnReq(a *ap.App, t *mc.T, req *ap.Req) *RunOut {
 	out := &RunOut{App: a, W: ap.NewWriter()}
+	for k, v := range sc.PreHeaders {
+		out.W.H[k] = append([]string(nil), v...)
+	}
 	req.T = t
 	out.Req = req
 	ctx := ap.WithReq(context.Background(), req)
